@@ -140,6 +140,14 @@ def run(ctx: Ctx) -> None:
     for i in range(8 if q else 60):
         if ctx.want('complex', i):
             complex_case(ctx, 'complex', i)
+    for i in range(63 if q else 630):
+        if ctx.want('toeplitz', i):
+            # the deterministic Toeplitz grid (every method, data shorter than the kernel, explicit odd / minimal sizes)
+            rng = ctx.rng('toeplitz', i)
+            op, label = gen.toeplitz_grid(i, rng)
+            if rng.random() < 0.3:
+                op = 2.0 * op
+            check(ctx, 'toeplitz', i, op, 'toeplitz:' + label)
     for i in range(150 if q else 3000):
         if ctx.want('expr', i):
             rng = ctx.rng('expr', i)
